@@ -15,10 +15,10 @@ import (
 
 func init() {
 	ev.Register(&ev.Prop{
-		ID:    "C01",
-		Rule:  "typed generator (1-6 statements: fixed sends, send-all, save, metadata calls; source trees with repeated and aliased accounts, bounded/unbounded overdraft, caps, allotments; balances absent/0/small/negative/>2^64); oracle: replay of the returned postings on the starting sheet, every non-exempt (account, asset) must stay >= min(start, -max(0, largest bounded grant)); non-trivial = success with >=1 posting debiting a non-exempt account and a stress feature (account repeated in a source, negative start, save, >=2 sends)",
-		New:   newExecCase,
-		Check: checkC01,
+		ID:          "C01",
+		Rule:        "typed generator (1-6 statements: fixed sends, send-all, save, metadata calls; source trees with repeated and aliased accounts, bounded/unbounded overdraft, caps, allotments; balances absent/0/small/negative/>2^64); oracle: replay of the returned postings on the starting sheet, every non-exempt (account, asset) must stay >= min(start, -max(0, largest bounded grant)); non-trivial = success with >=1 posting debiting a non-exempt account and a stress feature (account repeated in a source, negative start, save, >=2 sends)",
+		New:         newExecCase,
+		Check:       checkC01,
 		Assumptions: []string{"the printed script is what the parser reads (C15)", "store answers with its whole content (C10 compares store behaviours)"},
 	})
 	Generators["C01"] = func(t *rapid.T, tier string) any {
@@ -34,10 +34,10 @@ func init() {
 		return gen.NewTG(t, k).Case()
 	}
 	ev.Register(&ev.Prop{
-		ID:    "C02",
-		Rule:  "typed generator as C01 plus negative/zero caps on both sides, kept in every position, zero shares, multi-asset scripts; oracle per posting of a successful run: amount > 0, asset = asset of the producing statement (statements separated by prefix runs), source and destination non-empty, not the kept marker, and among the names the script can denote; non-trivial = success with >=1 posting and a stress feature (negative balance or cap, kept, allotment, >=2 assets)",
-		New:   newExecCase,
-		Check: checkC02,
+		ID:          "C02",
+		Rule:        "typed generator as C01 plus negative/zero caps on both sides, kept in every position, zero shares, multi-asset scripts; oracle per posting of a successful run: amount > 0, asset = asset of the producing statement (statements separated by prefix runs), source and destination non-empty, not the kept marker, and among the names the script can denote; non-trivial = success with >=1 posting and a stress feature (negative balance or cap, kept, allotment, >=2 assets)",
+		New:         newExecCase,
+		Check:       checkC02,
 		Assumptions: []string{"the printed script is what the parser reads (C15)"},
 	})
 	Generators["C02"] = func(t *rapid.T, tier string) any {
